@@ -30,6 +30,23 @@ ASSUMPTIONS = [
 ]
 
 
+def propagation_gaps(s, ev):
+    '''(dependent, target, site) not pending although the success report of
+    ev named one of their declared inputs as new'''
+    u = ev['unit']
+    gaps = []
+    for d, t in s.expect_after_success(u, ev['newset']):
+        if t not in ev['after'][d][0]:
+            site = ''
+            if not (s.ref.inputs[d] & ev['newset']):
+                vs = [v for v in ev['newset']
+                      if d in s.ref.feedbacks.get(v, ())]
+                if vs and all(len(s.ref.feedbacks[v]) > 1 for v in vs):
+                    site = '@second-feedback-consumer-of-one-value'
+            gaps.append((d, t, site))
+    return gaps
+
+
 def check_event(s, ev, out):
     op = ev['op'][0]
     if op == 'tick':
@@ -170,6 +187,10 @@ def exec_e2e(case):
                 n += 1
         runs[(tag, tn)] = runs.get((tag, tn), 0) + 1
         ds.update()
+        if (case.get('twice', 0) >> i) & 1:
+            # an algorithm may save intermediate results more than once; the
+            # second report of an unchanged value says "not new"
+            ds.update()
 
     dawgie._verif_run_hook = hook
     try:
@@ -314,6 +335,7 @@ def _e2e_case():
             'order': draw(st.lists(st.integers(0, 3), min_size=1,
                                    max_size=5)),
             'mode': draw(st.sampled_from(['unique'] * 5 + ['revert'])),
+            'twice': draw(st.sampled_from([0, 0, 1, 2, 3, 31])),
         }
 
     return build()
@@ -329,6 +351,15 @@ def parts(tier):
                 spec_kw={'min_algs': 2, 'levels': ('alg', 'sv', 'val', 'val')},
             ),
             cases=1600 if q else 40000, batch=200,
+        ),
+        core.Part(
+            'timers', execute,
+            strategy=sim.histories(
+                weights={'timer': 8},
+                spec_kw={'min_algs': 2, 'events': True,
+                         'levels': ('alg', 'sv', 'val', 'val')},
+            ),
+            cases=400 if q else 10000, batch=200,
         ),
         core.Part('e2e', exec_e2e, strategy=_e2e_case,
                   cases=200 if q else 6000, batch=40),
